@@ -354,8 +354,24 @@ class C18(Prop):
             step, ', '.join('%s=%r' % kv for kv in sorted(kw.items()) if kv[0] != 'full_output'),
             'z0=%r%s' % (z0v, '' if layout == 'scalar' else ' + %r' % (offsets,)))
         cls = Limit if task == 'limit' else Residue
-        with ctx.lib('no-exception', text):
-            res, info = cls(f, step=step, **kw)(x)
+        def lands_on_singular_point():
+            # with two singular points a sample z + h of one requested point can coincide with the other
+            # singular point (|delta| = 0.5 and a step of 0.5, seen at seed 303): f is NaN at a *sample*,
+            # which the premise "f = g * s with s a removable singularity at the requested point" excludes
+            if second is None:
+                return False
+            tol = 8 * EPS * (abs(z0v) + abs(second['delta']))      # equal up to the rounding of z + h
+            return any(np.any(np.abs(np.ravel(c) - (z0v + o)) <= tol) for c in calls[1:] for o in sing)
+
+        try:
+            with ctx.lib('no-exception', text):
+                res, info = cls(f, step=step, **kw)(x)
+        except Violation:
+            if lands_on_singular_point():
+                ctx.skip('a sample point lands exactly on the second singular point (f is NaN at a sample)')
+            raise
+        if lands_on_singular_point():
+            ctx.skip('a sample point lands exactly on the second singular point (f is NaN at a sample)')
         ctx.count('task=%s' % task)
         ctx.count('z0=%s' % ('real' if real_z0 else 'complex'))
         ctx.count('path=%s method=%s' % (path, method))
